@@ -86,6 +86,48 @@ func raceF8(t *testing.T) (res raceResult) {
 	return
 }
 
+// F8d: the deadline limiter shares blockUntilSignaled with the blocking limiter and has the same window: the release and its
+// Broadcast run between the caller's failed attempt and its helper goroutine reaching cond.Wait.  The caller then sleeps until the
+// deadline (and is refused there) although capacity has been free all along.
+func raceF8deadline(t *testing.T) (res raceResult) {
+	res.Sig = "deadline:lost-wakeup:broadcast-before-wait"
+	synctest.Test(t, func(t *testing.T) {
+		g, st := newGated(1)
+		dl := limiter.NewDeadlineLimiter(g, time.Now().Add(time.Hour), nil)
+		holder, _ := dl.Acquire(context.Background())
+		g.arm(true, false)
+		type ans struct {
+			l  core.Listener
+			ok bool
+		}
+		done := make(chan ans, 1)
+		ctx, cancel := context.WithCancel(context.Background())
+		go func() { l, ok := dl.Acquire(ctx); done <- ans{l, ok} }()
+		c := <-g.parked
+		g.arm(false, false)
+		holder.OnSuccess()
+		synctest.Wait()
+		close(c)
+		synctest.Wait()
+		select {
+		case a := <-done:
+			if a.ok {
+				a.l.OnIgnore()
+			}
+		default:
+			res.Failed = true
+			res.Detail = fmt.Sprintf("caller asleep until the deadline with %d/1 tokens held after the release", st.GetBusyCount())
+		}
+		cancel()
+		synctest.Wait()
+		if h, ok := dl.Acquire(context.Background()); ok { // its release broadcasts to the helper goroutine orphaned in cond.Wait
+			h.OnIgnore()
+		}
+		synctest.Wait()
+	})
+	return
+}
+
 // F8p: the same window with a poll period configured: the wake-up lost in the window is recovered by the caller's next poll
 // (it re-attempts the delegate every period), so the caller must hold the token one period later.
 func raceF8poll(t *testing.T) (res raceResult) {
@@ -490,7 +532,7 @@ func runRaces(t *testing.T, rep *Report, races ...func(*testing.T) raceResult) {
 func TestC10Races(t *testing.T) {
 	rep := NewReport("C10races")
 	defer rep.Write(t)
-	runRaces(t, rep, raceF8, raceF8poll, raceF9a, raceF9b, raceF9c)
+	runRaces(t, rep, raceF8, raceF8deadline, raceF8poll, raceF9a, raceF9b, raceF9c)
 }
 func TestC12Races(t *testing.T) {
 	rep := NewReport("C12races")
